@@ -22,6 +22,7 @@ def run(name, all_props=False):
             return name, meta["property"], "patch-does-not-apply", r.stdout[-300:]
         ev = tempfile.mkdtemp(prefix="dgseed-ev-")
         env = dict(os.environ, VERIF_REPO=sc, VERIF_EVIDENCE_DIR=ev, VERIF_REPORT_DIR=ev, VERIF_FACTS_TAG="seed-")
+        env.setdefault("VERIF_CACHE_DIR", os.path.join(VERIF, ".cache", "selftest"))
         pids = [meta["property"]] + list(meta.get("also", []))
         if all_props:
             pids = ["all"]
